@@ -148,6 +148,14 @@ theorem C56_post_chunking_independent (method : String) (dnsVals : Option (List 
 example : requestToDnsMsgC (fun w => some ⟨toString w.length, [], true⟩) "POST" none [[1], [], [2, 3], [4]] none none =
     some ⟨"4", [], true⟩ := by decide
 
+/-- **C56_batch_noninterference**: in the model the message produced for a request does not depend on which other
+    requests are converted before or after it while it is held (the implementation is tied to this by `bat` ops:
+    all conversions first, request buffers scribbled, every message summarised and packed at the end). -/
+theorem C56_batch_noninterference (pre post : List DohReq) (r : DohReq) :
+    (convertBatch unpack (pre ++ r :: post))[pre.length]? =
+      some (requestToDnsMsgC unpack r.method r.dnsVals r.chunks r.ra r.ca) := by
+  simp [convertBatch]
+
 /-- **C56_ttl_min** (RFC 8484 §5.1, mod_doh docs): `Cache-Control: max-age` is the smallest TTL of the Answer section —
     it is one of the answer TTLs and no answer TTL is smaller; 0 when there is no answer.  Authority/additional
     records do not take part. -/
